@@ -33,7 +33,7 @@ outputs, inputs, child outputs, statuses, wiring. -/
 theorem C10_transparent (fails : Nat → Bool) (n : Node) (mode : Mode) (ins : List Val)
     (h : allOk (eval fails ins n) = true) :
     run Cfg.repaired fails mode ins [] n = eval fails ins n :=
-  run_eq_ignore Cfg.repaired fails rfl rfl rfl n mode ins [] h
+  run_eq_ignore Cfg.repaired fails rfl rfl rfl rfl n mode ins [] h
 
 example : allOk (eval Ex.nf [] (Ex.wfA .macro (.inst true))) = true := by decide
 
@@ -44,7 +44,7 @@ theorem C10_same_outputs : TransparentStatement Cfg.repaired := by
 /-- Repaired merge: the shape of the graph is untouched, whether or not anything failed. -/
 theorem C10_keeps : KeepsStatement Cfg.repaired := by
   intro fails n ic ins
-  exact shapeOf_run Cfg.repaired fails rfl rfl rfl n _ ins []
+  exact shapeOf_run Cfg.repaired fails rfl rfl rfl rfl n _ ins []
 
 /-- Any merge: nothing is left running. -/
 theorem C10_nothing_running (cfg : Cfg) (fails : Nat → Bool) (n : Node) (mode : Mode) (ins : List Val)
@@ -61,7 +61,7 @@ theorem C10_transparent_partial (cfg : Cfg) (fails : Nat → Bool) (n : Node) (i
     shapeOf (run cfg fails (.honour inCopy) ins [] n) = shapeOf n := by
   have h1 : run cfg fails (.honour inCopy) ins [] n = eval fails ins n :=
     run_noMerge cfg Cfg.repaired fails n _ ins [] (by simp [noMerge, h])
-  exact ⟨h1, by rw [h1]; exact shapeOf_run Cfg.repaired fails rfl rfl rfl n _ ins []⟩
+  exact ⟨h1, by rw [h1]; exact shapeOf_run Cfg.repaired fails rfl rfl rfl rfl n _ ins []⟩
 
 example : noByValueComp (Ex.wfA .macro (.inst false)) = true := by decide
 
@@ -396,6 +396,32 @@ theorem C10_labels_bind (labels : List String) : bindsOk [] labels = true := by
 /-- … whereas a `submit(self, fn, *args, **kwargs)` captures an input labelled `fn`. -/
 theorem C10_label_capture_witness : bindsOk ["fn"] ["a", "fn"] = false := by decide
 
+/-! ## (f) every executor-valued attribute of the node is kept -/
+
+/-- a for-node run by value whose `body_node_executor` is a live pool -/
+def Ex.forBody (be : Exe) : Node :=
+  match Ex.m2 .forLike 5 (Ex.c 1) (Ex.c 2) (.inst true) none none [] false with
+  | .comp o k l ks => .comp { o with hasParent := false, bodyExe := be } k l ks
+  | n => n
+
+/-- `C10_keeps` speaks about the whole `Shape`, which holds the node's own `executor` *and* its further
+executor-valued attributes (`bodyExe`); spelled out for the latter: -/
+theorem C10_keeps_body_executor (fails : Nat → Bool) (n : Node) (inCopy : Bool) (ins : List Val) :
+    (run Cfg.repaired fails (.honour inCopy) ins [] n).own.bodyExe = n.own.bodyExe ∧
+    (run Cfg.repaired fails (.honour inCopy) ins [] n).own.exe = n.own.exe := by
+  have h := congrArg ShapeT.top (C10_keeps fails n inCopy ins)
+  cases hr : run Cfg.repaired fails (.honour inCopy) ins [] n <;> cases n <;>
+    simp_all [shapeOf, ShapeT.top, Own.shape, Node.own]
+
+/-- Without the for-node's own exception in `_get_state_from_remote_other` the copy's stripped value overwrites a
+live `body_node_executor` (instructions survive); with it the setting is kept. -/
+theorem C10_body_executor_witness :
+    let lost : Cfg := { Cfg.repaired with keepBodyExe := false }
+    (run lost Ex.nf (.honour false) [Ex.c 1, Ex.c 2] [] (Ex.forBody (.inst false))).own.bodyExe = .none ∧
+    (run lost Ex.nf (.honour false) [Ex.c 1, Ex.c 2] [] (Ex.forBody (.instr false))).own.bodyExe = .instr false ∧
+    (run Cfg.repaired Ex.nf (.honour false) [Ex.c 1, Ex.c 2] [] (Ex.forBody (.inst false))).own.bodyExe = .inst false := by
+  decide
+
 end PwVerif.C10
 
 #print axioms PwVerif.C10.C10_transparent
@@ -431,3 +457,5 @@ end PwVerif.C10
 #print axioms PwVerif.C10.C10_quiet_cancel_witness
 #print axioms PwVerif.C10.C10_labels_bind
 #print axioms PwVerif.C10.C10_label_capture_witness
+#print axioms PwVerif.C10.C10_keeps_body_executor
+#print axioms PwVerif.C10.C10_body_executor_witness
